@@ -4,6 +4,7 @@
 package racesim
 
 import (
+	"context"
 	"encoding/json"
 	"fmt"
 	"os"
@@ -15,8 +16,10 @@ import (
 
 	"github.com/prometheus/client_golang/prometheus"
 	corev1 "k8s.io/api/core/v1"
+	metav1 "k8s.io/apimachinery/pkg/apis/meta/v1"
 	"k8s.io/apimachinery/pkg/types"
 	"pgregory.net/rapid"
+	"tkestack.io/galaxy/pkg/api/galaxy/constant"
 	"tkestack.io/galaxy/pkg/api/k8s"
 	"tkestack.io/galaxy/pkg/api/k8s/schedulerapi"
 	"tkestack.io/galaxy/pkg/galaxy"
@@ -55,7 +58,7 @@ type c19Case struct {
 	Workers [][]rop `json:"workers"`
 }
 
-var ipamOps = []string{"filter", "bind", "schedule", "schedule", "update", "delete", "resync", "syncips", "list", "release", "pool", "reload", "gather", "preempt"}
+var ipamOps = []string{"filter", "bind", "schedule", "schedule", "update", "delete", "resync", "syncips", "list", "release", "pool", "reload", "gather", "preempt", "fipwatch"}
 var galaxyOps = []string{"add", "add", "del", "policy_event", "policy_sync", "pod_event", "pm_open", "pm_close", "pm_setup", "pm_clean", "pm_sync"}
 
 func genC19() *rapid.Generator[c19Case] {
@@ -81,6 +84,9 @@ func genC19() *rapid.Generator[c19Case] {
 				}
 				if i != 1 && (k == "resync" || k == "syncips") {
 					k = ops[1]
+				}
+				if i != 2 && k == "fipwatch" { // the FloatingIP informer delivers its events from one goroutine
+					k = ops[2]
 				}
 				w = append(w, rop{K: k, A: rapid.IntRange(0, 7).Draw(t, "a"), B: rapid.IntRange(0, 7).Draw(t, "b")})
 			}
@@ -275,6 +281,21 @@ func runIPAM(c *c19Case) *overlapTracker {
 			_, _ = w.Plugin.VerifUpdateConfigMap()
 		case "gather":
 			_, _ = reg.Gather()
+		case "fipwatch":
+			// an administrator creates / deletes a labelled FloatingIP object; the watch event reaches the handlers NewCrdIPAM registered
+			ip := fmt.Sprintf("10.0.70.%d", 2+op.A)
+			if op.B%2 == 0 {
+				if w.AddReserved(ip) == nil {
+					if obj, err := w.Galaxy.GalaxyV1alpha1().FloatingIPs().Get(context.TODO(), ip, metav1.GetOptions{}); err == nil {
+						w.DeliverFIPEvent(true, obj)
+					}
+				}
+			} else if obj, err := w.Galaxy.GalaxyV1alpha1().FloatingIPs().Get(context.TODO(), ip, metav1.GetOptions{}); err == nil &&
+				obj.Labels[constant.ReserveFIPLabel] == "" && len(obj.Labels) > 0 {
+				if w.DelReserved(ip) == nil {
+					w.DeliverFIPEvent(false, obj)
+				}
+			}
 		}
 	})
 }
